@@ -98,6 +98,7 @@ type frame struct {
 	loops    map[*ssa.BasicBlock]*loopInfo
 	params   []Term
 	dead     bool
+	noTaint  bool
 }
 
 type loopInfo struct {
